@@ -51,6 +51,17 @@ def plan(tier, seed):
     for shape in ((4, 128), (8, 128), (4, 256), (8, 256)):
         for lo in range(0, scales.numel(), CH):
             tasks.append({"kind": "repr", "shape": list(shape), "lo": lo, "hi": min(scales.numel(), lo + CH), "tier": tier})
+    # size ladder (2^20 .. 2^23+ elements, group counts that are not multiples of small block counts) and repetition ladder
+    for shape in ([(1028, 1152), (4096, 3200)] if tier == "quick" else [(1028, 1152), (2052, 2176), (4096, 3200), (4100, 4224)]):
+        tasks.append({"kind": "repr", "shape": list(shape), "lo": 0, "hi": scales.numel(), "tier": tier, "first_chunk_only": True})
+    for reorder in (False, True):
+        tasks.append({"kind": "sweep", "layout": "v1", "reorder": reorder, "n": 140 if tier == "quick" else 400})
+    tasks.append({"kind": "sweep", "layout": "v2", "reorder": False, "n": 70 if tier == "quick" else 200})
+    for N, K in ([(1028, 1032), (8, 16392)] if tier == "quick" else [(1028, 1032), (8, 16392), (4100, 2056), (16388, 520)]):
+        for reorder in (False, True):
+            tasks.append({"kind": "v1", "N": N, "K": K, "reorder": reorder, "large": True})
+    for N, K in ([(1028, 1088)] if tier == "quick" else [(1028, 1088), (4100, 2112), (16388, 576)]):
+        tasks.append({"kind": "v2", "N": N, "K": K, "large": True})
     return tasks
 
 
@@ -138,6 +149,9 @@ def _layout_task(task, out):
             bad("not_bijective", "the position map recovered from the digit probes is not a permutation of the source positions", ["probe", "all"])
         task["_posmap"] = src
     # (ii) value obliviousness: all 16x16 value pairs in every pair of slots of the first and the last packed word
+    if task.get("large"):
+        task.pop("_posmap", None)
+        return
     if only is None or only[0] == "pairs":
         if "_posmap" in task:
             src = task["_posmap"].reshape(-1, width // 4)  # word -> source flat positions per slot
@@ -178,6 +192,47 @@ def _layout_task(task, out):
     task.pop("_posmap", None)
 
 
+def _sweep_task(task, out):
+    """Repetition ladder: many distinct widths are packed and unpacked in one process, twice around, and every packed tensor is
+    kept and unpacked again at the end (caches keyed on shape that evict, wrap or go stale after many entries)."""
+    from optimum.quanto.tensor.qbits.awq.packed import AWQPackedTensor, AWQPacking
+
+    v2 = task["layout"] == "v2"
+    reorder = task["reorder"]
+    fields = {"kind": "sweep", "layout": task["layout"], "reorder": reorder}
+    held = []
+    widths = [(64 if v2 else 8) * (i + 1) for i in range(task["n"])]
+    for rnd in range(2):
+        for K in widths:
+            N = 4 if v2 else 2
+            M = ((torch.arange(N * K, dtype=torch.int64) * 7 + rnd) % 16).to(torch.uint8).reshape(N, K)
+            c = [rnd, K]
+            case = dict(task, only=c)
+            out["evals"] += 1
+            out["calls"] += 2
+            out["points"] += 1
+            out["nontrivial"] += 1
+            try:
+                p = AWQPackedTensor.pack(M, packing=AWQPacking.V2) if v2 else AWQPackedTensor.pack(M, packing=AWQPacking.V1, reorder=reorder)
+                u = p.unpack()
+                okk = tuple(u.shape) == (N, K) and torch.equal(u.to(torch.uint8), M)
+            except Exception as e:  # noqa
+                out["violations"].append(violation(PID, case, dict(fields, sub="raised"), f"raised: sweep round {rnd} width {K}: {type(e).__name__}: {str(e)[:160]}"))
+                continue
+            if not okk:
+                out["violations"].append(violation(PID, case, dict(fields, sub="not_inverse"), f"not_inverse: unpack(pack(M)) != M for width {K} in round {rnd} of a sweep over {len(widths)} widths ({task['layout']}, reorder={reorder})"))
+            held.append((c, M, p))
+    for c, M, p in held:
+        try:
+            u = p.unpack()
+            okk = tuple(u.shape) == M.shape and torch.equal(u.to(torch.uint8), M)
+        except Exception:
+            okk = False
+        if not okk:
+            out["violations"].append(violation(PID, dict(task, only=c), dict(fields, sub="held_not_inverse"), f"held_not_inverse: a packed tensor of width {c[1]} kept from round {c[0]} no longer unpacks to its source after the whole sweep"))
+            break
+
+
 def _repr_task(task, out):
     from optimum.quanto import QBitsTensor
     from optimum.quanto.tensor.qbits.awq.qbits import AWQBitsTensor
@@ -195,9 +250,13 @@ def _repr_task(task, out):
     base_codes = (torch.arange(gs).view(1, gs) * 5 + torch.arange(ng).view(ng, 1) * 3) % 16
     pairs = [(z, s) for s in scales.tolist() for z in zps]
     for lo in range(0, len(pairs), ng):
+        if task.get("first_chunk_only") and lo > 0:
+            break
         chunk = pairs[lo:lo + ng]
         if len(chunk) < ng:
-            chunk = chunk + pairs[: ng - len(chunk)]
+            # more groups than (zero-point, scale) pairs: spread the pairs so that every region of the tensor (in particular its
+            # first and last groups) sees small and large scales
+            chunk = [pairs[(i * 7919 + lo) % len(pairs)] for i in range(ng)]
         c = [lo]
         if only and only != c:
             continue
@@ -218,6 +277,8 @@ def _repr_task(task, out):
             src = (std._data.unpack(), std._scale, std._zeropoint)
             snap = [t.clone() for t in src]
             awq = AWQBitsTensor(qt, 0, gs, torch.Size((N, K)), (K, 1), *src)
+            if N * K >= 1 << 20:
+                num.poison(N * K * 2, N * K)
             d_awq = awq.dequantize().to(torch.float64)
             if not all(torch.equal(a, b) for a, b in zip(src, snap)) or not bool((std.dequantize().to(torch.float64) == d_std).all()):
                 out["violations"].append(violation(PID, case, dict(fields, sub="source_modified"),
@@ -279,6 +340,8 @@ def _run(task):
     out = {"evals": 0, "nontrivial": 0, "points": 0, "calls": 0, "violations": [], "samples": [], "counters": {}}
     if task["kind"] == "repr":
         _repr_task(task, out)
+    elif task["kind"] == "sweep":
+        _sweep_task(task, out)
     else:
         _layout_task(dict(task), out)
     out["counters"][task["kind"] + "_cases"] = out["points"]
